@@ -55,6 +55,26 @@ def duplicatedEffectful (out : Node) : List Node :=
     | x :: xs, acc => if xs.any (fun y => y.span == x.span && y == x) then go xs (x :: acc) else go xs acc
   go cands []
 
+/-- member accesses that are read (an assignment's own target is written, not read; what it is made of is read) -/
+partial def memberReads (n : Node) : List Node :=
+  match n with
+  | .assign _ (.member o p _) r _ => memberReads o ++ memberReads p ++ memberReads r
+  | .assign _ (.paren (.member o p _) _) r _ => memberReads o ++ memberReads p ++ memberReads r
+  | .member o p sp =>
+    (if sp.isDummy then [] else [n]) ++ memberReads o ++ memberReads p
+  | .block .. => []
+  | _ => (n.kids.map memberReads).flatten
+
+/-- a member access of the input (same node, same source position) that the output reads twice within one
+    block's own code: a getter or proxy behind it would run twice -/
+def duplicatedMemberReads (out : Node) : List Node :=
+  let own (b : Node) : List Node := memberReads (dropHookTails (match b with | .block ss sp => .seq ss sp | n => n))
+  let rec go : List Node → List Node → List Node
+    | [], acc => acc
+    | x :: xs, acc => if xs.any (fun y => y.span == x.span && y == x) then go xs (x :: acc) else go xs acc
+  let blocks := Node.collect (fun k => match k with | .block .. => true | _ => false) out
+  go (own out) [] ++ ((blocks.filter (fun b => !(b == out))).map fun b => go (own b) []).flatten
+
 def isPureTargetPart : Node → Bool
   | .ident .. => true
   | .lit .. => true
@@ -143,7 +163,9 @@ def checkC02 (r : RealOut) : List Finding :=
       [⟨"C02", cls, match d with | some (p, a, b) => s!"at {p}: erased={a} input={b}" | none => "differs only in parentheses/spelling?"⟩]
   let f1 := if f1.length == 1 && (Node.eqNS (Node.normText erased) (Node.normText r.inp)) then [] else f1
   let dups := duplicatedEffectful r.out
-  f1 ++ dups.map fun d => ⟨"C02", dupClass r.out d, shortN r d⟩
+  let mdups := (duplicatedMemberReads r.out).eraseDups
+  f1 ++ (dups.map fun d => ⟨"C02", dupClass r.out d, shortN r d⟩) ++
+    (mdups.map fun d => ⟨"C02", "member-access-read-twice", shortN r d⟩)
 
 def checkC03 (r : RealOut) : List Finding :=
   if r.status != "Modified" || !NoNs r.inp then [] else
@@ -162,7 +184,20 @@ def checkC05 (r : RealOut) : List Finding :=
   let inNames := hookNames r.inp
   (if (names.filter fun n => !inNames.contains n).all fun n => r.cfg.dsts.contains n then []
    else [⟨"C05", "hook-name-not-configured", toString (names.filter fun n => !r.cfg.dsts.contains n)⟩]) ++
-  (if r.cfg.methods.isEmpty && r.status != "NotModified" then [⟨"C05", "modified-under-empty-method-list", r.status⟩] else [])
+  (if r.cfg.methods.isEmpty && r.status != "NotModified" then [⟨"C05", "modified-under-empty-method-list", r.status⟩] else []) ++
+  -- the prologue (the statement that tests `typeof _ddiast`) comes before every statement that holds a hook
+  -- call which was not in the input: else that hook runs before the pass-through object exists
+  (if r.status != "Modified" || !NoNs r.inp then [] else
+    let body := programBody r.out
+    let isPro (k : Node) : Bool := match k with
+      | .ifStmt (.bin "===" (.unary "typeof" (.ident (.user ns) _) _) _ _) _ _ _ => ns == Generated.ddGlobalNamespace
+      | _ => false
+    match body.findIdx? isPro with
+    | none => [⟨"C05", "modified-file-without-the-prologue", ""⟩]
+    | some i =>
+      match (body.take i).find? (fun k => hookCount k > 0) with
+      | some k => [⟨"C05", "hook-call-in-a-statement-before-the-prologue", shortN r k⟩]
+      | none => [])
 
 def checkC06 (r : RealOut) : List Finding :=
   let refused := mentionsReserved r.pfx r.inp
